@@ -138,6 +138,42 @@ def route_edit(d, type_name, kind):
 PRIV_FIELDS = {"secret": "", "internal": "pub(crate)", "parent": "pub(super)"}
 
 
+# ---- type mappings by route (class of seeded C08-12): a mapped external type mentioned through ONE route only
+MAP_ROUTE_TYPES = {"EvStamp": "payload of an event emitted by a helper (typed parameter)",
+                   "EvList": "inside Vec<..> of an event payload",
+                   "ChStamp": "channel message type", "RetStamp": "return type",
+                   "FldStamp": "struct field", "ParStamp": "command parameter"}
+
+
+def maproutes_project(full=True):
+    """base project + one external (not project-defined) type per route; `full`: every one of them has a type_mappings
+    entry (target string), otherwise none has"""
+    d = base_project()
+    f = d["files"][0]
+    f["structs"][0]["fields"].append({"name": "stamp", "type": "FldStamp", "public": True, "rename": None, "skip": False,
+                                      "validator": None})
+    f["commands"].append({"name": "stamp_now", "async": False, "rename_all": None,
+                          "params": [{"name": "at", "type": "ParStamp"}], "ret": "RetStamp",
+                          "channels": [{"name": "on_stamp", "msg": "ChStamp"}]})
+    f["events"] += [{"name": "ev-stamp", "payload": "EvStamp", "via_param": True},
+                    {"name": "ev-list", "payload": "Vec<EvList>", "via_param": True}]
+    d["cfg"]["type_mappings"] = {t: "string" for t in MAP_ROUTE_TYPES} if full else None
+    return d
+
+
+def maproute_edit(d, type_name, kind):
+    """configuration-only edit of ONE type_mappings entry: target (change it; absent: add with the other target) |
+    toggle (remove the entry / add it)"""
+    tm = dict(d["cfg"].get("type_mappings") or {})
+    if kind == "target":
+        tm[type_name] = "number" if tm.get(type_name) == "string" else "string" if type_name in tm else "number"
+    elif type_name in tm:
+        del tm[type_name]
+    else:
+        tm[type_name] = "string"
+    d["cfg"]["type_mappings"] = tm or None
+
+
 def add_priv_fields(d):
     """User gets one field of every non-public visibility (all of them reach types.ts)"""
     for n, vis in PRIV_FIELDS.items():
@@ -876,6 +912,9 @@ def apply_edit(desc, name):
         elif part.startswith("pf:"):
             _, f_, k_ = part.split(":")
             pf_edit(d, f_, k_)
+        elif part.startswith("mt:"):
+            _, t, k = part.split(":")
+            maproute_edit(d, t, k)
         elif part == "force":
             e_force(d)
         elif part:
